@@ -1088,6 +1088,9 @@ class Gen:
                 # canonical comparison direction: `a > b` is `b < a` (both operands are pure values here: nothing is
                 # bound in `pre`, so the order of evaluation is irrelevant); `N > index` and `index < N` give the same text
                 op, va, vb = {">": "<", ">=": "<="}[op], vb, va
+            if CANON[0] and op in ("==", "!=") and re.fullmatch(r"\d+|\(u_max w\)", va) and not re.fullmatch(r"\d+|\(u_max w\)", vb):
+                # `0 != x` is `x != 0`: a literal / `$Digit::MAX` goes to the right (pure values; `pre` keeps the source order)
+                va, vb = vb, va
             f = {"<": "(%s <? %s)", "<=": "(%s <=? %s)", ">": "(%s >? %s)", ">=": "(%s >=? %s)", "==": "(%s =? %s)", "!=": "(negb (%s =? %s))"}[op]
             return pre, f % (va, vb), "bool"
         if op in ("<<", ">>"):
